@@ -317,4 +317,42 @@ Section SpinProofs.
     unfold for_range. apply fold_left_inv; [|exact Hop']. intros op'' j _ Hop''.
     destruct (negb (adj i j)); [exact Hop''|]. apply herm_op_add; [exact Hop''|apply fsp_pherm|apply N; exact HJ].
   Qed.
+
+  (* ---------------------------------------------------------------- A_i A_j as a matrix product *)
+  Definition le (a : pl) (rb cb : bool) : K := letter_entry (plz a) (plx a) rb cb.
+
+  Lemma le_mul_id a rb cb :
+    (le a rb false * le LI false cb + le a rb true * le LI true cb = le a rb cb) /\
+    (le LI rb false * le a false cb + le LI rb true * le a true cb = le a rb cb).
+  Proof. split; destruct a, rb, cb; cbn; ring. Qed.
+
+  Lemma site_kron_mul n : forall (f g h : nat -> pl) k0 r c,
+    length r = n -> length c = n ->
+    (forall k rb cb, le (f k) rb false * le (g k) false cb + le (f k) rb true * le (g k) true cb = le (h k) rb cb) ->
+    bsum n (fun x => site_kron n f k0 r x * site_kron n g k0 x c) = site_kron n h k0 r c :> K.
+  Proof.
+    induction n as [|n IH]; intros f g h k0 r c Hr Hc Hm.
+    - destruct r, c; try discriminate. rewrite bsum_0. cbn. ring.
+    - destruct r as [|rb r], c as [|cb c]; try discriminate.
+      injection Hr as Hr. injection Hc as Hc.
+      rewrite bsum_S. cbn [site_kron].
+      pose proof (Hm k0 rb cb) as E. unfold le in E.
+      rewrite <- (IH f g h (Datatypes.S k0) r c Hr Hc Hm), <- E.
+      set (S0 := bsum n (fun x => site_kron n f (Datatypes.S k0) r x * site_kron n g (Datatypes.S k0) x c) : K).
+      set (a0 := letter_entry (plz (f k0)) (plx (f k0)) rb false : K).
+      set (a1 := letter_entry (plz (f k0)) (plx (f k0)) rb true : K).
+      set (b0 := letter_entry (plz (g k0)) (plx (g k0)) false cb : K).
+      set (b1 := letter_entry (plz (g k0)) (plx (g k0)) true cb : K).
+      transitivity (a0 * b0 * S0 + a1 * b1 * S0 : K); [|ring].
+      unfold S0. rewrite <- !bsum_scal. f_equal; apply bsum_ext; intros x _; ring.
+  Qed.
+
+  Theorem two_site_product n a i j : i <> j ->
+    meq (K:=K) n (two_site n a i j) (mmul n (one_site n a i) (one_site n a j)).
+  Proof.
+    intros Hij r c Hr Hc. unfold two_site, one_site, mmul. symmetry.
+    apply site_kron_mul; try assumption. intros k rb cb.
+    destruct (Nat.eqb_spec k i) as [Ei|Hi]; destruct (Nat.eqb_spec k j) as [Ej|Hj]; cbn [orb];
+      try (exfalso; congruence); apply le_mul_id.
+  Qed.
 End SpinProofs.
